@@ -228,6 +228,10 @@ fn main() {
                     break;
                 }
             }
+            // every QUIC client completes its handshake (the verdict of the rules comes after it): one that cannot is not served
+            if view.attempted && !view.established {
+                rep.violation_with(format!("endpoint-quic:client-view:{}:{}:handshake-failed", kind, if rules_on { "rules" } else { "norules" }), format!("the QUIC handshake did not complete: {}", view.note), || json!({"kind": kind, "rules": rules_on, "dual": dual}));
+            }
             // the expected status where the model leaves none open (what the client must see if it is served)
             let want_status = match kind {
                 "tunnel-h3" | "ping-h3" => Some(200),
